@@ -137,7 +137,7 @@ def main(argv=None):
             print("INCONCLUSIVE %s" % m)
         if status == 0:
             status = 2
-    if not args.no_evidence:
+    if not args.no_evidence and not args.only:
         ev = dict(property_id=pid, tier=tier, seed=seed, level=spec.get("level", "model_checking"),
                   coverage=dict(
                       states=max(tot["paths"], 0), transitions=tot["decisions"] + tot["choices"],
